@@ -165,6 +165,10 @@ func runC07(c *Ctx) {
 					done <- struct{}{}
 				}()
 				var o gal.Term
+				arriveWait := 80 * time.Millisecond
+				if closed || uint64(ob.GetPersistSeqNo()) >= q {
+					arriveWait = 2 * time.Second // it passes the gate at once: a loaded machine must not make it look as if it waited
+				}
 				select {
 				case <-done:
 					nw := takeNew(before)
@@ -173,7 +177,7 @@ func runC07(c *Ctx) {
 					} else {
 						o = gal.List([]gal.Term{gal.App("GDropped", gal.N(q))})
 					}
-				case <-time.After(80 * time.Millisecond):
+				case <-time.After(arriveWait):
 					waiting, waitSeq = true, q
 					o = gal.List(nil)
 				}
@@ -200,6 +204,12 @@ func runC07(c *Ctx) {
 			default: // poll: give the waiting goroutine time to re-check
 				var o gal.Term = gal.List(nil)
 				if waiting {
+					// long where the effect is due (the threshold covers the waiting event, or the observer is closed): it ends
+					// the wait when it comes; short where nothing is due
+					pollWait := 80 * time.Millisecond
+					if closed || uint64(ob.GetPersistSeqNo()) >= waitSeq {
+						pollWait = 2 * time.Second
+					}
 					select {
 					case <-done:
 						waiting = false
@@ -209,7 +219,7 @@ func runC07(c *Ctx) {
 						} else {
 							o = gal.List([]gal.Term{gal.App("GDropped", gal.N(waitSeq))})
 						}
-					case <-time.After(80 * time.Millisecond):
+					case <-time.After(pollWait):
 					}
 				}
 				ops, outs = append(ops, "GPoll"), append(outs, o)
